@@ -244,7 +244,7 @@ let () =
        | Ok s -> snaps := rc_snapshot s :: !snaps
        | Panic site -> snaps := Printf.sprintf "PANIC %d" (int_of_n site) :: !snaps);
       print_string (String.concat " || " (List.rev !snaps));
-      print_string (" ## SPEC " ^ spec_snapshot !sp);
+      print_string (" ## SPEC " ^ (if !contract = "ok" then spec_snapshot !sp else "-"));
       print_string (" ## CONTRACT " ^ !contract);
       print_newline ()
     with Failure m | Invalid_argument m -> print_endline ("MODELERROR " ^ m)
